@@ -14,7 +14,7 @@ env = dict(os.environ, CARGO_NET_OFFLINE="true", CARGO_TARGET_DIR="/tmp/mut/shar
 def sh(cmd, **kw):
     if cmd.startswith("cargo test"):
         cmd = "flock /tmp/mut/shared/test.lock " + cmd
-    return subprocess.run(cmd, shell=True, capture_output=True, text=True, env=env, **kw)
+    return subprocess.run(cmd, shell=True, capture_output=True, text=True, errors="replace", env=env, **kw)
 sh(f"git -C /repo archive HEAD | tar -x -C {W} --one-top-level=repo")
 shutil.copy(f"{src}/demo.rs", f"{W}/repo/tests/seed_demo.rs")
 r0 = sh("cargo test --offline --test seed_demo 2>&1", cwd=f"{W}/repo")
